@@ -894,8 +894,12 @@ impl StoryState {
         self.output_stream_dirty();
     }
 
-    pub fn pop_evaluation_stack(&mut self) -> Rc<dyn RTObject> {
-        self.evaluation_stack.pop().unwrap()
+    pub fn pop_evaluation_stack(&mut self) -> Result<Rc<dyn RTObject>, StoryError> {
+        self.evaluation_stack.pop().ok_or_else(|| {
+            StoryError::InvalidStoryState(
+                "Evaluation stack is empty: an operand or argument is missing.".to_owned(),
+            )
+        })
     }
 
     pub fn pop_evaluation_stack_multiple(
@@ -1088,7 +1092,7 @@ impl StoryState {
         // for that)
         let mut returned_obj = None;
         while self.evaluation_stack.len() > original_evaluation_stack_height {
-            let popped_obj = self.pop_evaluation_stack();
+            let popped_obj = self.pop_evaluation_stack()?;
             if returned_obj.is_none() {
                 returned_obj = Some(popped_obj);
             }
